@@ -3,6 +3,8 @@
   Property theorems only; helpers in FtProofs/Lemmas/PointLemmas.lean.
 -/
 import FtProofs.Lemmas.PointLemmas
+import FtProofs.Lemmas.AssignLemmas
+import FtProofs.C12
 set_option linter.unusedSectionVars false
 set_option linter.unusedSimpArgs false
 namespace Ft
@@ -134,6 +136,45 @@ theorem run_refines_map [Add ν] (dflt : ν) (d : Nat) : ∀ (ops : List (PointO
 
 end
 
+/-! ### assignment at a partial point (fiber assignment through the reference at a prefix) -/
+section
+variable {ν : Type} [DecidableEq ν]
+
+/-- the canonical copy `<<=` stores reads like its source -/
+theorem val_nonEmpty (dflt : ν) (d : Nat) (x : Tree Int ν d) (hx : WF d x) (q : List Int) (hq : q.length = d) :
+    val dflt d (nonEmpty dflt d x) q = val dflt d x q := by
+  rw [val_eq_content dflt d _ (nonEmpty_wf dflt d x hx) q hq, val_eq_content dflt d x hx q hq, nonEmpty_content]
+
+/-- `h = t.getPayloadRef(*p); h <<= x` at a stored partial point `p`: every point under `p` then reads
+    what `x` holds there (the default where `x` holds nothing), every other point reads what it read
+    before, and the tree stays well-formed -/
+theorem assign_partial_read (dflt : ν) (d : Nat) (t : Tree Int ν (d + 1)) (h : WF (d + 1) t)
+    (p : List Int) (d' : Nat) (s : Tree Int ν (d' + 1)) (hl : locate d t p = some ⟨d', s⟩)
+    (g : TreeArg ν) (x : Tree Int ν (d' + 1)) (hg : g.get (d' + 1) = some x) (hx : WF (d' + 1) x)
+    (q : List Int) (hq : q.length = d + 1) :
+    val dflt (d + 1) (mstep dflt d t (.assignF p g)).1 q =
+      if p <+: q then val dflt (d' + 1) x (q.drop p.length) else val dflt (d + 1) t q := by
+  have hd := locate_depth d t p d' s hl
+  show val dflt (d + 1) (atPath (fiberStep dflt (.assignF p g)) d t p).1 q = _
+  rw [val_atPath dflt _ d t h p d' s hl q]
+  by_cases hpq : p <+: q
+  · simp only [hpq, if_true]
+    show val dflt (d' + 1) (fiberStep dflt (.assignF p g) d' s).1 _ = _
+    simp only [fiberStep, hg]
+    exact val_nonEmpty dflt (d' + 1) x hx _ (by simp only [List.length_drop]; omega)
+  · simp only [hpq, if_false]
+
+/-- … and the reference itself makes `p` a stored partial point without changing any read, so the two
+    steps together behave like assignment of a block of the abstract map -/
+theorem assign_partial_after_ref (dflt : ν) (d : Nat) (t : Tree Int ν (d + 1)) (h : WF (d + 1) t)
+    (p : List Int) (hp : p.length ≤ d) :
+    ∃ (d' : Nat) (s : Tree Int ν (d' + 1)), locate d (refAt dflt (d + 1) t p) p = some ⟨d', s⟩ ∧
+      WF (d + 1) (refAt dflt (d + 1) t p) ∧ ∀ q, val dflt (d + 1) (refAt dflt (d + 1) t p) q = val dflt (d + 1) t q := by
+  obtain ⟨d', s, hs⟩ := locate_refAt dflt d t h p hp
+  exact ⟨d', s, hs, refAt_wf dflt (d + 1) t h p, refAt_val dflt (d + 1) t h p⟩
+
+end
+
 /-! ### non-vacuity -/
 section
 private def exT : Tree Int Int 2 := [(0, [(1, (5 : Int)), (2, (0 : Int))]), (3, []), (4, [(0, (7 : Int))])]
@@ -141,6 +182,11 @@ example : WF 2 exT := (wfB_iff 2 exT).1 (by decide)
 example : Abs 0 2 exT (val 0 2 exT) := fun _ _ => rfl
 #guard getLeaf 0 2 exT [0, 1] == 5 && getLeaf 0 2 exT [0, 2] == 0 && getLeaf 0 2 exT [3, 1] == 0 && getLeaf 0 2 exT [9, 9] == 0
 #guard (pointRun 0 2 exT [.get [3, 1], .assign [3, 1] 4, .iadd [9, 0] 2, .get [3, 1], .get [9, 0], .ref [1, 1], .get [0, 1]]).2 == [0, 4, 2, 4, 2, 0, 5]
+-- partial assignment: row 3 := a copy of [(1, 9), (2, 0)]; (3,1) reads 9, (3,2) the default, row 0 is untouched
+private def exG : TreeArg Int := ⟨fun k => match k with | 1 => some ([(1, (9 : Int)), (2, (0 : Int))] : Tree Int Int 1) | _ => none⟩
+#guard (locate 1 exT [3]).isSome
+#guard let t' := (mstep 0 1 exT (.assignF [3] exG)).1
+       getLeaf 0 2 t' [3, 1] == 9 && getLeaf 0 2 t' [3, 2] == 0 && getLeaf 0 2 t' [0, 1] == 5 && wfB 2 t'
 #guard legalStart ([(0, 1), (2, 1), (5, 1)] : Fib Int Int) 1 4 && coord2posFrom ([(0, 1), (2, 1), (5, 1)] : Fib Int Int) 1 4 == 2
 end
 end Ft
